@@ -249,6 +249,14 @@ random_bytes = st.one_of(
 )
 
 
+@PROP.given('adversarial-content', lambda tier: exotic_input(), quick=200, thorough=6000, shards_quick=8)
+def adversarial_content(data, note):
+    r1 = c05lib.outcome(data, True)
+    check_outcome(r1, data, 'assertions on')
+    note.nontrivial = True
+    note.label('outcome=' + r1['kind'])
+
+
 @PROP.given('random-bytes', lambda tier: random_bytes, quick=1500, thorough=60000, shards_quick=8)
 def random_input(data, note):
     r1 = c05lib.outcome(data, True)
@@ -269,8 +277,26 @@ def exotic_input(draw):
     """damage that makes the decoder fail with something else than a range-check AssertionError:
     IndexError (valid word count > 9), AttributeError (undersized PCE), RecursionError (deeply nested JSON
     user data), UnicodeDecodeError (non UTF-8 text), KeyError / TypeError / ValueError candidates"""
-    which = draw(st.sampled_from(['wordcount', 'wordcount', 'pce', 'deep-json', 'utf8', 'bad-json-type', 'lp-name']))
+    which = draw(st.sampled_from(['wordcount', 'wordcount', 'pce', 'deep-json', 'utf8', 'bad-json-type', 'lp-name',
+                                  'backslashes', 'backslashes']))
     ph = M.default_ph(creator=ord('O'), eid=0x50000001)
+    if which == 'backslashes':
+        # perfectly decodable PELs whose text / dump lines carry long runs of one character that is special to
+        # JSON or to regular expressions: decoding and printing must still be prompt
+        ch = draw(st.sampled_from([b'\\', b'\\', b'"', b'\\"', b':', b'{', b' ']))
+        n = draw(st.sampled_from([40, 64, 200, 1000]))
+        kind = draw(st.sampled_from(['text', 'raw', 'json-string', 'mt']))
+        if kind == 'text':
+            sec = {'k': 'UD', 'ver': 1, 'sub': 3, 'comp': 0x2000, 'data': b'x' + ch * n + b'x'}
+        elif kind == 'json-string':
+            import json as _json
+            sec = {'k': 'UD', 'ver': 1, 'sub': 1, 'comp': 0x2000,
+                   'data': _json.dumps([(ch * n).decode('latin-1')]).encode()}
+        elif kind == 'mt':
+            sec = {'k': 'MT', 'ver': 1, 'sub': 0, 'comp': 0, 'mtm': (ch * 8)[:8], 'sn': (ch * 12)[:12]}
+        else:
+            sec = {'k': 'RAW', 'id': 0x5A5A, 'ver': 0, 'sub': 0, 'comp': 0, 'data': ch * n}
+        return M.encode(M.minimal_pel([sec], ph=ph))
     if which == 'wordcount':
         src = M.default_src(wc=draw(st.one_of(st.integers(10, 255), st.sampled_from([10, 11, 0x10, 0x80, 0xFF]))))
         return M.encode(M.minimal_pel([src], ph=ph))
